@@ -107,6 +107,19 @@ class Rewriter(ast.NodeTransformer):
                     if stmt_matches(pre, st, first):
                         hit = hv
                         break
+            if hit is None and isinstance(st, ast.For):
+                # a hand-modelled loop written with another range / index convention: recognised by what it fills in
+                stored = set()
+                for n_ in ast.walk(st):
+                    if isinstance(n_, (ast.Assign, ast.AugAssign)):
+                        for t_ in (n_.targets if isinstance(n_, ast.Assign) else [n_.target]):
+                            while isinstance(t_, ast.Subscript):
+                                t_ = t_.value
+                            stored.add(ast.unparse(t_))
+                for pre, hv in self.cfg.get('skip', {}).items():
+                    if pre.startswith('for ') and hv and stored and stored <= {t for t, _ in hv}:
+                        hit = hv
+                        break
             if hit is not None:
                 for target, symname in hit:
                     out.append(ast.parse('%s = __havoc__(%r)' % (target, symname)).body[0])
@@ -178,9 +191,17 @@ class SelfStub:
 
     def __getattr__(self, name):
         vals = object.__getattribute__(self, '_vals')
-        if name in vals:
-            return vals[name]
         cfg = object.__getattribute__(self, '_cfg')
+        if name in vals:
+            v = vals[name]
+            if isinstance(v, E) and v.op == 'sym' and v.args == ('__hole__',):
+                for hv in cfg.get('skip', {}).values():
+                    for target, symname in hv:
+                        if target == 'self.' + name:
+                            v = vals[name] = E.sym(symname)
+                if v.args == ('__hole__',):
+                    raise TraceAbort('attribute `%s` is filled by a library loop that is not a configured hole' % name)
+            return v
         tr = object.__getattribute__(self, '_tr')
         if name in cfg.get('concrete', {}):
             return cfg['concrete'][name]
@@ -199,6 +220,13 @@ class SelfStub:
         return v
 
     def __setattr__(self, name, v):
+        if isinstance(v, Opaque):
+            # the result of a library loop (cumsum, ...) stored where a hand-modelled statement used to compute it in a
+            # Python loop: the same hole, the same fresh symbol
+            for hv in self._cfg.get('skip', {}).values():
+                for target, symname in hv:
+                    if target == 'self.' + name and v.what in ('cumsum', 'concatenate'):
+                        v = E.sym(symname)
         if isinstance(v, Opaque):
             v.what = name
         self._vals[name] = v
